@@ -31,10 +31,229 @@ pub fn run(tier: Tier) -> i32 {
         r.found.retain(|f| f.violation.signature.starts_with("C10/") || f.violation.signature.starts_with("panic/"));
         rep.add_dfs("three-clients-connected-on-3-slots", 2, d3, &r);
     }
+    // scale class: large connection tables (slot and index arithmetic beyond one byte, the 1024-client maximum)
+    {
+        let sizes: Vec<usize> = tier.pick(vec![255, 256, 257, 1024], vec![2, 64, 255, 256, 257, 300, 511, 512, 513, 1000, 1023, 1024]);
+        let res = explore::par_cases(sizes.len(), |i| table_scale_case(sizes[i]));
+        let mut steps = 0u64;
+        for (i, r) in res.into_iter().enumerate() {
+            match r {
+                Ok(n) => steps += n,
+                Err(v) => rep.violation("large-table", v, J::obj().set("kind", J::s("large-table")).set("max_clients", J::i(sizes[i] as u64))),
+            }
+        }
+        rep.add_sweep("large-table", sizes.len() as u64, sizes.len() as u64, sizes.len() as u64, vec![format!("servers with max_clients in {:?}: filled by real clients, one more denied, payload routing both ways for every client, keep-alive rounds, one kicked and replaced, one silent until it times out ({} library calls)", sizes, steps)]);
+        rep.transitions += steps;
+    }
     rep.finish()
 }
 
+/// Fills a server with `max` real clients and checks the table clauses at that size. Returns the number of library calls.
+pub fn table_scale_case(max: usize) -> Result<u64, crate::explore::Violation> {
+    use crate::explore::Violation;
+    use crate::nc::{self, make_token_wide, new_client, new_server, server_addr, user_data_wide, wide_addr, TokenSpec, SR};
+    use std::time::Duration;
+    let public = vec![server_addr(0)];
+    let mut server = new_server(max, public.clone(), Duration::ZERO);
+    let mut steps = 0u64;
+    let dt = Duration::from_millis(250);
+    let id_of = |k: usize| 10_000u64 + 7 * k as u64;
+    let mk = |k: usize| {
+        let mut sp = TokenSpec::new(id_of(k), 0, public.clone());
+        sp.expire = 600;
+        sp.timeout = 5;
+        make_token_wide(&sp, k as u32)
+    };
+    let bad = |sig: &str, msg: String| Violation::new(format!("C10/large-table/{}", sig), format!("max_clients {}: {}", max, msg));
+    let mut clients = vec![];
+    // handshake of client k; returns the server's verdict on the response
+    let handshake = |server: &mut renetcode::NetcodeServer, k: usize, steps: &mut u64| -> Result<(renetcode::NetcodeClient, SR), Violation> {
+        let mut c = new_client(Duration::ZERO, &mk(k));
+        let addr = wide_addr(k as u32);
+        let (req, _) = nc::cli_update(&mut c, dt)?.ok_or_else(|| bad("client-silent", format!("client {} produced no request", k)))?;
+        let r1 = nc::srv_process(server, addr, &req)?;
+        *steps += 2;
+        let Some((to, bytes)) = r1.reply() else { return Ok((c, r1)) };
+        if to != addr {
+            return Err(bad("reply-to-wrong-address", format!("reply for client {} went to {}", k, to)));
+        }
+        nc::cli_process(&mut c, bytes)?;
+        if !c.is_connecting() {
+            return Ok((c, r1));
+        }
+        let (resp, _) = nc::cli_update(&mut c, dt)?.ok_or_else(|| bad("client-silent", format!("client {} produced no response", k)))?;
+        let r2 = nc::srv_process(server, addr, &resp)?;
+        *steps += 3;
+        if let Some((to, bytes)) = r2.reply() {
+            if to != addr {
+                return Err(bad("reply-to-wrong-address", format!("reply for client {} went to {}", k, to)));
+            }
+            nc::cli_process(&mut c, bytes)?;
+        }
+        Ok((c, r2))
+    };
+    let check_table = |server: &renetcode::NetcodeServer, expect: &[usize], what: &str| -> Result<(), Violation> {
+        let mut ids = server.clients_id();
+        ids.sort();
+        let mut want: Vec<u64> = expect.iter().map(|&k| id_of(k)).collect();
+        want.sort();
+        if ids != want {
+            let missing: Vec<u64> = want.iter().filter(|x| !ids.contains(x)).copied().take(5).collect();
+            let extra: Vec<u64> = ids.iter().filter(|x| !want.contains(x)).copied().take(5).collect();
+            return Err(bad("table-disagrees-with-reported-events", format!("{}: {} ids listed, {} expected; missing {:?} unexpected {:?}", what, ids.len(), want.len(), missing, extra)));
+        }
+        if server.connected_clients() != want.len() {
+            return Err(bad("connected_clients-disagrees", format!("{}: {} vs {}", what, server.connected_clients(), want.len())));
+        }
+        for &k in expect {
+            if server.client_addr(id_of(k)) != Some(wide_addr(k as u32)) {
+                return Err(bad("lookup-by-id-wrong-address", format!("{}: client_addr({}) = {:?}, session was authenticated from {}", what, id_of(k), server.client_addr(id_of(k)), wide_addr(k as u32))));
+            }
+            if server.user_data(id_of(k)) != Some(user_data_wide(k as u32)) {
+                return Err(bad("lookup-by-id-wrong-user-data", format!("{}: user_data({}) is not what the token of that id sealed", what, id_of(k))));
+            }
+        }
+        Ok(())
+    };
+    for k in 0..max {
+        let (c, r) = handshake(&mut server, k, &mut steps)?;
+        match &r {
+            SR::Connected { client_id, addr, user_data, .. } => {
+                if *client_id != id_of(k) || *addr != wide_addr(k as u32) || **user_data != user_data_wide(k as u32) {
+                    return Err(bad("connected-event-names-wrong-session", format!("handshake of client {} (id {}) reported id {} at {}", k, id_of(k), client_id, addr)));
+                }
+            }
+            other => return Err(bad("room-but-not-connected", format!("client {} of {} got {} on its response", k, max, other.kind()))),
+        }
+        if !c.is_connected() {
+            return Err(bad("room-but-not-connected", format!("client {} not connected after the server's keep-alive", k)));
+        }
+        clients.push(c);
+    }
+    let all: Vec<usize> = (0..max).collect();
+    check_table(&server, &all, "after filling")?;
+    // one more: refused, nothing disturbed
+    {
+        let (c, r) = handshake(&mut server, max, &mut steps)?;
+        if matches!(r, SR::Connected { .. }) || server.connected_clients() > max {
+            return Err(bad("more-than-max_clients", format!("client number {} was accepted", max + 1)));
+        }
+        let _ = c;
+        check_table(&server, &all, "after the refused handshake")?;
+    }
+    // payload routing both ways, every client
+    for k in 0..max {
+        let body = format!("to-{}", k).into_bytes();
+        let s = &mut server;
+        let out = crate::link::guard("NetcodeServer::generate_payload_packet", || s.generate_payload_packet(id_of(k), &body).map(|(a, p)| (a, p.to_vec())).ok())?;
+        let Some((a, p)) = out else { return Err(bad("payload-for-connected-id-refused", format!("client {}", k))) };
+        if a != wide_addr(k as u32) {
+            return Err(bad("payload-routed-to-wrong-address", format!("payload for id {} addressed to {}", id_of(k), a)));
+        }
+        if nc::cli_process(&mut clients[k], &p)? != Some(body.clone()) {
+            return Err(bad("payload-sealed-for-wrong-session", format!("client {} could not open the payload generated for its id", k)));
+        }
+        let up = format!("from-{}", k).into_bytes();
+        let c = &mut clients[k];
+        let (_, q) = crate::link::guard("NetcodeClient::generate_payload_packet", || c.generate_payload_packet(&up).map(|(a, p)| (a, p.to_vec())).ok())?.ok_or_else(|| bad("client-cannot-send", format!("client {}", k)))?;
+        match nc::srv_process(&mut server, wide_addr(k as u32), &q)? {
+            SR::Payload { client_id, bytes } if client_id == id_of(k) && bytes == up => {}
+            other => return Err(bad("payload-attributed-to-wrong-id", format!("payload of client {} (id {}) surfaced as {:?}", k, id_of(k), other.kind()))),
+        }
+        steps += 4;
+    }
+    // keep-alive rounds; client 3 % max goes silent and must be the only one to time out (5 s)
+    let silent = 3 % max;
+    let kicked = max / 2;
+    let mut present: Vec<usize> = all.clone();
+    let mut replaced = false;
+    for round in 0..26u32 {
+        server.update(dt);
+        for &k in &present.clone() {
+            let r = nc::srv_update_client(&mut server, id_of(k))?;
+            steps += 1;
+            match &r {
+                SR::Send { addr, bytes } => {
+                    if *addr != wide_addr(k as u32) {
+                        return Err(bad("keep-alive-to-wrong-address", format!("keep-alive for id {} addressed to {}", id_of(k), addr)));
+                    }
+                    nc::cli_process(&mut clients[k], bytes)?;
+                }
+                SR::Disconnected { client_id, addr, .. } => {
+                    if k != silent || round < 19 {
+                        return Err(bad("live-client-timed-out", format!("round {}: client {} (id {}) was disconnected by update_client", round, k, id_of(k))));
+                    }
+                    if *client_id != id_of(k) || *addr != wide_addr(k as u32) {
+                        return Err(bad("disconnect-event-names-wrong-session", format!("time-out of client {} reported id {} at {}", k, client_id, addr)));
+                    }
+                    present.retain(|x| *x != k);
+                }
+                SR::None => {}
+                other => return Err(bad("unexpected-result", format!("update_client gave {}", other.kind()))),
+            }
+        }
+        for &k in &present.clone() {
+            if k == silent && round >= 1 {
+                continue;
+            }
+            if let Some((p, _)) = nc::cli_update(&mut clients[k], dt)? {
+                let r = nc::srv_process(&mut server, wide_addr(k as u32), &p)?;
+                steps += 2;
+                if !matches!(r, SR::None) {
+                    return Err(bad("unexpected-result", format!("keep-alive of client {} gave {}", k, r.kind())));
+                }
+            }
+            if !clients[k].is_connected() {
+                return Err(bad("live-client-timed-out", format!("round {}: client {} is no longer connected on its side", round, k)));
+            }
+        }
+        if round == 4 && max >= 2 {
+            // kick one in the middle, its slot goes to a newcomer
+            let s = &mut server;
+            let r = crate::link::guard("NetcodeServer::disconnect", || nc::own(s.disconnect(id_of(kicked))))?;
+            match &r {
+                SR::Disconnected { client_id, addr, .. } if *client_id == id_of(kicked) && *addr == wide_addr(kicked as u32) => {}
+                other => return Err(bad("disconnect-event-names-wrong-session", format!("disconnect({}) reported {:?}", id_of(kicked), other.kind()))),
+            }
+            present.retain(|x| *x != kicked);
+            check_table(&server, &present, "after disconnect(id)")?;
+            let (c, r) = handshake(&mut server, max + 1, &mut steps)?;
+            if !matches!(r, SR::Connected { client_id, .. } if client_id == id_of(max + 1)) || !c.is_connected() {
+                return Err(bad("room-but-not-connected", format!("a slot was freed but the newcomer got {}", r.kind())));
+            }
+            // index bookkeeping: clients is indexed by k; park the newcomer at max + 1
+            while clients.len() < max + 1 {
+                clients.push(new_client(Duration::ZERO, &mk(max)));
+            }
+            clients.push(c);
+            present.push(max + 1);
+            replaced = true;
+            check_table(&server, &present, "after the newcomer took the freed slot")?;
+        }
+    }
+    if present.contains(&silent) && silent != kicked {
+        return Err(bad("silent-client-not-timed-out", format!("client {} sent nothing for 6 s (time-out 5 s) and is still in the table", silent)));
+    }
+    let _ = replaced;
+    check_table(&server, &present, "at the end")?;
+    Ok(steps)
+}
+
 pub fn replay(j: &J) -> i32 {
+    if j.get("kind").and_then(|k| k.as_str()) == Some("large-table") {
+        let m = j.get("max_clients").and_then(|x| x.as_i()).unwrap_or(256) as usize;
+        println!("large table case: max_clients {}", m);
+        return match table_scale_case(m) {
+            Err(v) => {
+                println!("RESULT: violation {} — {}", v.signature, v.message);
+                1
+            }
+            Ok(_) => {
+                println!("RESULT: no violation");
+                0
+            }
+        };
+    }
     let idx = j.get("scenario_index").and_then(|x| x.as_i()).unwrap_or(0) as usize;
     let mut w = HsWorld::new(if idx == 2 { super::hsworld::c10_prebuilt_fix() } else { c10_fix(idx + 1) });
     let acts: Vec<usize> = j
